@@ -4,6 +4,7 @@
 mod common_fam;
 mod header_fam;
 mod ids_fam;
+mod sweep;
 mod util;
 
 use std::io::{BufRead, Write};
@@ -27,6 +28,7 @@ fn handle(ctx: &Ctx, line: &str) -> String {
         "HLOAD" => header_fam::hload_case(ctx, &t),
         "CKS" => header_fam::cks_case(&t),
         "FIND" => header_fam::find_case(ctx, &t),
+        "SWEEP" => sweep::sweep_case(ctx, &t),
         f => format!("unknown-family:{}", f),
     }
 }
